@@ -1073,7 +1073,7 @@ func (r *Request) SetDumpOptions(opt *DumpOptions) *Request {
 
 // EnableDump enables dump, including all content for the request and response by default.
 func (r *Request) EnableDump() *Request {
-	return r.SetContext(context.WithValue(r.Context(), dump.DumperKey, newDumper(r.getDumpOptions())))
+	return r.SetContext(context.WithValue(r.Context(), dump.DumperKey, newRequestDumper(r.getDumpOptions())))
 }
 
 // EnableDumpWithoutBody enables dump only header for the request and response.
